@@ -292,6 +292,7 @@ func init() {
 			{Name: "lang", Count: countFn(3000, 200000), Run: c10Lang},
 			{Name: "typed", Count: countFn(1500, 100000), Run: c10Typed},
 		},
+		Sanitize: []string{"api", "lang"},
 		Floors: []core.Floor{{Key: "value_ops", Quick: 1000000, Thor: 80000000}, {Key: "recomparisons", Quick: 30000000, Thor: 2000000000}, {Key: "statements_compared", Quick: 50000, Thor: 3000000}, {Key: "nontrivial", Quick: 15000, Thor: 1000000}},
 	})
 }
